@@ -122,10 +122,11 @@ class _UnionNormType(_BasicNormType):
         return Union
 
     # ensure stable order of args during one interpreter session
-    def _make_orderable(self, obj: object) -> str:
+    def _make_orderable(self, obj: object) -> tuple[str, int]:
         if isinstance(obj, BaseNormType):
-            return f"{obj.origin} {[self._make_orderable(arg) for arg in obj.args]}"
-        return str(obj)
+            # distinct classes may have equal names (e.g. classes made by a factory), id() breaks such ties
+            return f"{obj.origin} {[self._make_orderable(arg) for arg in obj.args]}", id(obj.origin)
+        return str(obj), 0
 
     def _order_args(self, args: VarTuple[BaseNormType]) -> VarTuple[BaseNormType]:
         args_list = list(args)
